@@ -39,14 +39,27 @@ def free_text(p, S, rng, omp_lines=True):
         txt = st.text()
         if st in S:
             toks = txt.split(" ")
-            if len(toks) > 4 and rng.random() < 0.5:
-                k = rng.randint(1, len(toks) - 1)
-                a, b = " ".join(toks[:k]), " ".join(toks[k:])
-                if "'" in a and a.count("'") % 2 or '"' in a and a.count('"') % 2:
+            if len(toks) > 4 and rng.random() < 0.6:
+                npieces = 3 if len(toks) > 7 and rng.random() < 0.4 else 2
+                cuts = sorted(rng.sample(range(1, len(toks)), npieces - 1))
+                parts = [" ".join(toks[a:b]) for a, b in zip([0] + cuts, cuts + [len(toks)])]
+                bad = False
+                acc = ""
+                for part in parts[:-1]:
+                    acc += part
+                    if acc.count("'") % 2 or acc.count('"') % 2:
+                        bad = True
+                if bad:
                     lines.append(rng.choice(["!$ ", "  !$ ", "!$  "]) + txt)
                 else:
-                    lines.append(rng.choice(["!$ ", " !$ "]) + a + " &")
-                    lines.append(rng.choice(["!$ & ", "!$& ", "!$ ", "  !$   &"]) + b)
+                    lines.append(rng.choice(["!$ ", " !$ "]) + parts[0] + " &")
+                    for k, part in enumerate(parts[1:]):
+                        r = rng.random()
+                        if r < 0.2:
+                            lines.append("   ! plain comment between continuation lines")
+                        elif r < 0.3:
+                            lines.append("")
+                        lines.append(rng.choice(["!$ & ", "!$& ", "!$ ", "  !$   &"]) + part + (" &" if k < len(parts) - 2 else ""))
             else:
                 lines.append(rng.choice(["!$ ", "  !$ ", "!$    "]) + txt)
         else:
